@@ -29,16 +29,17 @@ def _try(f):
         return None, f'{type(e).__name__}: {e}'
 
 
-def observe(text, c):
+def observe(text, c, s=None):
     """Parses text and calls everything on circuit c.  Returns a dict; entries are None where the call raised
     (the message is kept in obs['errors'])."""
     from kyupy import stil, logic
     from kyupy.logic_sim import LogicSim
     obs = {'errors': {}}
-    s, err = _try(lambda: stil.parse(text))
-    if s is None:
-        obs['errors']['parse'] = err
-        return None, obs
+    if s is None:       # else: an already parsed (and already queried) StilFile is applied to ANOTHER circuit
+        s, err = _try(lambda: stil.parse(text))
+        if s is None:
+            obs['errors']['parse'] = err
+            return None, obs
     # the call dictionaries hold the strings of the file; anything else is reported (and rendered as a string so that the case still runs)
     def as_str(v):
         if isinstance(v, str):
